@@ -450,7 +450,10 @@ def compare_dq(mo, io, a):
 def impl_pyeq(a):
     b = build_world(a["world"])
     x, y = build_val(a["a"], b), build_val(a["b"], b)
-    return ok(bool(x == y))
+    try:
+        return ok(bool(x == y))
+    except InvalidOperation:
+        return err("InvalidOperation")
 
 
 # ---------------------------------------------------------------------------
@@ -1332,6 +1335,7 @@ def gen_pyeq(rng, tier):
         J(()), J([]), J({}), J([1]), J((1,)), J([True]), J({"a": 1}), J({"a": 1.0}), J("b"), J(b"a"), J(0.1), J(Decimal("0.1")),
         J(XmlDate(2000, 1, 2)), J(XmlDate(1999, 12, 31)), J(XmlDuration("P1D")), J([[0]]), J([(False,)]), J(((),)),
         J(set()), J(frozenset()), J({1}), J(frozenset({1})), J({1, 2}), J(frozenset({1, 2})), J({1.0}), J([{1}]),
+        J(Decimal("sNaN")), J([Decimal("sNaN")]), J((Decimal("sNaN"),)), J((1, Decimal("sNaN"))), J([1, Decimal("sNaN")]), J(XmlDate(2000, 1, 2)),
         J(""), J(b""), J(QName("")), J("a'b"), J(b"a'b"), J(XmlBase64Binary(b"a")), J(10**30), J(1e30), J(Decimal(10**30)),
         J([QName("a")]), J(["a"]), J({"a": QName("a")}), J({QName("a"): 1}), J([1.0, True]), J([1, 1]), J((1, [2, {3: 4}])), J([1, [2, {3: 4.0}]]),
         member(EA, "A"), member(EA, "B"), member(EB, "A"), J([1, None]), J([None, 1]),
@@ -1425,6 +1429,13 @@ def impl_seq(a):
     return ok(out)
 
 
+def compare_seq(mo, io, a):
+    if "ok" not in mo or "ok" not in io or len(mo["ok"]) != len(io["ok"]):
+        return mo == io
+    # the model may decline one render (a signaling NaN in a comparison it does not cover)
+    return all(m == i or m == "RAISES:unmodelled" for m, i in zip(mo["ok"], io["ok"]))
+
+
 def classify_seq(a, o):
     texts = o.get("ok", [])
     return f"{len(texts)} renders, {sum(1 for t in texts if t.startswith('RAISES'))} refused, {len(set(texts))} distinct"
@@ -1434,7 +1445,7 @@ CORRS = [
     Corr("c18.code", gen_code, impl_code, canon=canon_code, compare=compare_code, classify=classify_code,
          nontrivial=lambda a, o: a["val"]["t"] in ("model", "list", "tuple", "dict", "set"),
          describe="PycodeSerializer.render text + outcome of exec'ing it vs model (text exact; outcome unless the model declines)"),
-    Corr("c18.seq", gen_seq, impl_seq, classify=classify_seq,
+    Corr("c18.seq", gen_seq, impl_seq, compare=compare_seq, classify=classify_seq,
          describe="several renders on one PycodeSerializer / XmlContext (A, B, A again; same class name in two modules in turn) vs the stateless model"),
     Corr("c18.dq", gen_dq, impl_dq, compare=compare_dq, classify=classify_dq, nontrivial=lambda a, o: "\\" in a["s"],
          describe='CPython decoding of the body of a "…" literal vs decodeDq (model may decline)'),
@@ -1448,7 +1459,7 @@ CORRS = [
          describe="CPython's reading of a whole bytes literal vs decodeBytesLit (model may decline)"),
     Corr("c18.decrepr", gen_decrepr, impl_decrepr, classify=classify_decrepr,
          describe="repr(Decimal) (= Decimal('<str(d)>'), the decimal module's scientific notation) and its evaluation vs decRepr / readDecimal"),
-    Corr("c18.pyeq", gen_pyeq, impl_pyeq, classify=classify_pyeq, describe="Python == on scalar/collection values vs pyEq"),
+    Corr("c18.pyeq", gen_pyeq, impl_pyeq, compare=compare_dq, classify=classify_pyeq, describe="Python == on scalar/collection values vs pyEq"),
     Corr("c18.json", gen_json, impl_json, classify=classify_text, nontrivial=lambda a, o: len(a["s"]) > 0,
          describe="json.dumps(s, ensure_ascii=False) vs jsonDumps (every code point below U+0250, then random)"),
     Corr("c18.qnamecp", gen_qnamecp, impl_qnamecp, classify=classify_cps, nontrivial=lambda a, o: any(0xD800 <= c <= 0xDFFF for c in a["cps"]),
